@@ -12,7 +12,8 @@ TITLE = 'Bulk memory operations never straddle or leave the sandbox'
 FUNCTIONS = ['detail::check_range_doesnt_cross_app_sbx_boundary (rlbox_range.hpp:14-30)',
              'rlbox::memset, rlbox::memcpy, rlbox::memcmp (rlbox_stdlib.hpp:103-217)',
              'tainted_base_impl::unverified_safe_pointer_because (rlbox.hpp:74-97)',
-             'tainted_base_impl::copy_and_verify_buffer_address / verify_range_helper (rlbox.hpp:564-589, 746-754)']
+             'tainted_base_impl::copy_and_verify_buffer_address / verify_range_helper (rlbox.hpp:564-589, 746-754)',
+             'rlbox::copy_memory_or_grant_access, rlbox::copy_memory_or_deny_access (rlbox_stdlib.hpp:232-342), copy paths']
 
 SB = cs('rlbox::rlbox_sandbox<rlbox::vsbx>')
 
@@ -194,12 +195,132 @@ def unverified_ptr_inst(pointee, tier):
                 replay={'kind': 'unverified_ptr', 'pointee': pointee, 'esz': esz})
 
 
+EXTRA_CPP = '''#include <cstdint>
+namespace rlbox { namespace vinst {
+struct VAddr { unsigned long operator()(uintptr_t) const; };
+}}
+'''
+
+
+def buffer_address_inst(pointee, tier):
+    """copy_and_verify_buffer_address(verifier, count): the address handed to the verifier has `count` whole elements inside one sandbox"""
+    TT = cs('rlbox::tainted<%s, rlbox::vsbx>' % (pointee + ' *'))
+    esz = HOST_SIZE[pointee]
+    P = '((uintptr_t)((const struct %s *)$this)->data)' % TT
+    BYTES = '(MI($1) * MI(%d))' % esz
+    stub = ('unsigned long verifier_stub(unsigned long addr)\n'
+            '__CPROVER_requires(addr == 0 ? g_exp_s == 0 : (addr == g_exp_s && WHOLLY_IN_SOME(addr, MI(g_exp_n) * MI(%d)))) /*@address_has_count_whole_elements_inside_one_sandbox*/\n'
+            '__CPROVER_ensures(g_vcalls == __CPROVER_old(g_vcalls) + 1 && __CPROVER_return_value == addr)\n__CPROVER_assigns(g_vcalls);\n' % esz)
+    cl = [('wf', '__CPROVER_requires(V_BACKEND_WF && g_vcalls == 0)'),
+          ('obj', '__CPROVER_requires(__CPROVER_r_ok((const struct %s *)$this, sizeof(struct %s)))' % (TT, TT)),
+          ('ptr_inv', '__CPROVER_requires(%s == 0 || V_WHICH(%s) != -1)' % (P, P)),
+          ('ghost', '__CPROVER_requires(g_exp_s == %s && g_exp_n == $1)' % P),
+          ('noabort_pre', '__CPROVER_requires(g_noabort ==> ($1 >= 1 && (%s == 0 || WHOLLY_IN_SOME(%s, %s))))' % (P, P, BYTES)),
+          ('verifier_runs_once', '__CPROVER_ensures(g_vcalls == 1 && $ret == %s)' % P),
+          ('frame', '__CPROVER_assigns(g_vcalls)')]
+    h = ('  unsigned long in_base0, in_size0, in_base1, in_size1;\n'
+         '  V_BASE[0] = in_base0; V_SIZE[0] = in_size0; V_BASE[1] = in_base1; V_SIZE[1] = in_size1;\n'
+         '  __CPROVER_assume(V_BACKEND_WF);\n  _Bool in_noabort; g_noabort = in_noabort; g_vcalls = 0;\n'
+         '  struct %s p; uintptr_t in_p; p.data = (void *)in_p; unsigned long in_count; g_exp_s = in_p; g_exp_n = in_count; struct S_VAddr vf;\n'
+         '  unsigned long r = $ROOT((void *)&p, vf, in_count);\n' % TT)
+    return Inst('c10_buffer_address_%s' % tid(pointee), 'tainted<%s*, vsbx>& p, VAddr verifier, size_t count' % pointee, 'p.copy_and_verify_buffer_address(verifier, count);',
+                cl, h, leaves=['dynamic_check', CHECK_RANGE_LEAF], prop=PROP, root_name='copy_and_verify_buffer_address', tier=tier, pre=SPEC + ' unsigned g_vcalls;\n',
+                post_protos=stub, opts={'param_fn_stubs': {'verifier': 'verifier_stub'}}, extra_replace=['verifier_stub'],
+                replay={'kind': 'buffer_address', 'pointee': pointee, 'esz': esz})
+
+
+DENY_SPEC = SPEC + ''' unsigned g_mallocs, g_frees, g_app_frees; unsigned long g_malloc_bytes, g_malloc_ret, g_freed_ptr; _Bool g_malloc_fails;
+void *vstd_malloc(unsigned long n)
+__CPROVER_ensures((uintptr_t)__CPROVER_return_value == (g_malloc_fails ? 0UL : g_malloc_ret) && g_malloc_bytes == n && g_mallocs == __CPROVER_old(g_mallocs) + 1)
+__CPROVER_assigns(g_malloc_bytes, g_mallocs);
+void vstd_free(void *p)
+__CPROVER_requires((uintptr_t)p == g_malloc_ret && g_mallocs == 1 && !g_malloc_fails) /*@only_the_buffer_allocated_here_is_freed*/
+__CPROVER_ensures(g_app_frees == __CPROVER_old(g_app_frees) + 1)
+__CPROVER_assigns(g_app_frees);
+void *vstd_memcpy(void *d, const void *s, unsigned long n)
+__CPROVER_requires((uintptr_t)d != 0 && (uintptr_t)d == g_malloc_ret && g_mallocs == 1 && n == g_malloc_bytes) /*@copy_destination_is_the_allocated_buffer_and_fits_it*/
+__CPROVER_requires((uintptr_t)s != 0) /*@null_source_never_proceeds*/
+__CPROVER_requires((uintptr_t)s == g_exp_s && (n >= 1 ==> WHOLLY_IN_SOME((uintptr_t)s, n))) /*@copy_source_wholly_inside_one_sandbox*/
+__CPROVER_requires(MI(n) == MI(g_exp_n) * MI(g_exp_esz)) /*@copies_exactly_num_elements*/
+__CPROVER_ensures(g_memcpy_calls == __CPROVER_old(g_memcpy_calls) + 1)
+__CPROVER_assigns(g_memcpy_calls);
+'''
+
+
+def deny_access_inst(el, esz, tier):
+    """copy_memory_or_deny_access on a backend that cannot revoke access: copy path (rlbox_stdlib.hpp:294-342)"""
+    TT = cs('rlbox::tainted<%s *, rlbox::vsbx>' % el)
+    P = '((uintptr_t)$1.data)'
+    BYTES = '(MI($2) * MI(%d))' % esz
+    free_leaf = ('rlbox_sandbox::free_in_sandbox(contract, C04)', lambda fn, rec: fn.get('name') == 'free_in_sandbox',
+                 '__CPROVER_ensures(g_frees == __CPROVER_old(g_frees) + 1 && g_freed_ptr == (uintptr_t)$0.data)\n__CPROVER_assigns(g_frees, g_freed_ptr)')
+    cl = SB_REQ + [
+        ('ptr_inv', '__CPROVER_requires(%s == 0 || V_WHICH(%s) != -1)' % (P, P)),
+        ('ghost', '__CPROVER_requires(g_exp_s == %s && g_exp_n == $2 && g_mallocs == 0 && g_memcpy_calls == 0 && g_frees == 0 && g_app_frees == 0 && __CPROVER_w_ok($4, 1))' % P),
+        ('malloc_result_is_application_memory', '__CPROVER_requires(g_malloc_ret >= (1UL << 47) && g_malloc_ret < (1UL << 62))'),
+        ('noabort_pre', '__CPROVER_requires(g_noabort ==> ($2 >= 1 && %s < (MI(1) << 64) && WHOLLY_IN_SOME(%s, %s)))' % (BYTES, P, BYTES)),
+        ('copied_buffer_returned', '__CPROVER_ensures((uintptr_t)$ret != 0 ==> ((uintptr_t)$ret == g_malloc_ret && g_memcpy_calls == 1 && *$4 == 1 && MI(g_malloc_bytes) == %s))' % BYTES),
+        ('source_freed_only_on_request', '__CPROVER_ensures(g_frees == (((uintptr_t)$ret != 0 && $3) ? 1 : 0) && (g_frees == 1 ==> g_freed_ptr == %s))' % P),
+        ('failure_copies_nothing', '__CPROVER_ensures((uintptr_t)$ret == 0 ==> (g_memcpy_calls == 0 && *$4 == 0))'),
+        ('buffer_released_iff_not_returned', '__CPROVER_ensures(g_app_frees == (((uintptr_t)$ret == 0 && !g_malloc_fails) ? 1 : 0))'),
+        ('null_source_is_refused', '__CPROVER_ensures(%s == 0 ==> (uintptr_t)$ret == 0)' % P),
+        ('frame', '__CPROVER_assigns(g_mallocs, g_malloc_bytes, g_memcpy_calls, g_frees, g_freed_ptr, g_app_frees, *$4)'),
+    ]
+    h = SB_HARNESS + ('  struct %s src; uintptr_t in_p; src.data = (%s *)in_p; unsigned long in_num; _Bool in_free; _Bool copied; _Bool in_mfail; unsigned long in_mret;\n'
+                      '  g_exp_s = in_p; g_exp_n = in_num; g_exp_esz = %d; g_mallocs = 0; g_memcpy_calls = 0; g_frees = 0; g_app_frees = 0; g_malloc_fails = in_mfail; g_malloc_ret = in_mret;\n'
+                      '  void *r = (void *)$ROOT(&sb, src, in_num, in_free, &copied);\n' % (TT, {'char16_t': 'unsigned short'}.get(el, el), esz))
+    return Inst('c10_copy_memory_or_deny_access_%s' % tid(el), 'rlbox_sandbox<vsbx>& s, tainted<%s*, vsbx> src, size_t num, bool fr, bool& copied' % el,
+                'copy_memory_or_deny_access(s, src, num, fr, copied);', cl, h, leaves=['dynamic_check', CHECK_RANGE_LEAF, free_leaf], prop=PROP,
+                root_name='copy_memory_or_deny_access', tier=tier, pre=DENY_SPEC.replace('int g_slot;', 'int g_slot; unsigned long g_exp_esz;'),
+                extra_replace=['vstd_memcpy', 'vstd_malloc', 'vstd_free'], replay={'kind': 'deny_access', 'el': el, 'esz': esz})
+
+
+GRANT_SPEC = SPEC + ''' unsigned g_sbx_mallocs, g_rl_memcpys, g_app_frees; unsigned long g_sbx_malloc_ret, g_cp_d, g_cp_s, g_cp_n, g_exp_esz; unsigned int g_sbx_malloc_count; _Bool g_malloc_fails;
+void vstd_free(void *p)
+__CPROVER_requires((uintptr_t)p == g_exp_s && g_rl_memcpys == 1) /*@only_the_copied_source_is_freed_and_only_after_the_copy*/
+__CPROVER_ensures(g_app_frees == __CPROVER_old(g_app_frees) + 1)
+__CPROVER_assigns(g_app_frees);
+'''
+
+
+def grant_access_inst(el, esz, tier):
+    """copy_memory_or_grant_access on a backend that cannot grant access: copy path (rlbox_stdlib.hpp:232-282), over the
+    contracts of malloc_in_sandbox (C14/C03) and rlbox::memcpy (this property)"""
+    cel = {'char16_t': 'unsigned short'}.get(el, el)
+    TT = cs('rlbox::tainted<%s *, rlbox::vsbx>' % el)
+    malloc_leaf = ('rlbox_sandbox::malloc_in_sandbox(contract)', lambda fn, rec: fn.get('name') == 'malloc_in_sandbox',
+                   '__CPROVER_ensures((uintptr_t)$ret.data == (g_malloc_fails ? 0UL : g_sbx_malloc_ret) && g_sbx_malloc_count == $0 && g_sbx_mallocs == __CPROVER_old(g_sbx_mallocs) + 1)\n'
+                   '__CPROVER_assigns(g_sbx_malloc_count, g_sbx_mallocs)')
+    memcpy_leaf = ('rlbox::memcpy(contract, this property)', lambda fn, rec: fn.get('name') == 'memcpy',
+                   '__CPROVER_ensures(g_rl_memcpys == __CPROVER_old(g_rl_memcpys) + 1 && g_cp_d == (uintptr_t)$1.data && g_cp_s == (uintptr_t)$2 && g_cp_n == $3)\n'
+                   '__CPROVER_assigns(g_rl_memcpys, g_cp_d, g_cp_s, g_cp_n)')
+    BYTES = '(MI($2) * MI(%d))' % esz
+    cl = SB_REQ + [
+        ('ghost', '__CPROVER_requires(g_exp_s == (uintptr_t)$1 && g_sbx_mallocs == 0 && g_rl_memcpys == 0 && g_app_frees == 0 && __CPROVER_w_ok($4, 1) && g_sbx_malloc_ret != 0)'),
+        ('noabort_pre', '__CPROVER_requires(g_noabort ==> ($2 <= 0xffffffffUL))'),
+        ('allocates_num_elements', '__CPROVER_ensures(g_sbx_mallocs == 1 && MI(g_sbx_malloc_count) == MI($2))'),
+        ('copies_exactly_the_source_into_the_allocation', '__CPROVER_ensures((uintptr_t)$ret.data != 0 ==> ((uintptr_t)$ret.data == g_sbx_malloc_ret && g_rl_memcpys == 1 && g_cp_d == g_sbx_malloc_ret && g_cp_s == (uintptr_t)$1 && MI(g_cp_n) == %s && *$4 == 1))' % BYTES),
+        ('failure_copies_nothing', '__CPROVER_ensures((uintptr_t)$ret.data == 0 ==> (g_rl_memcpys == 0 && *$4 == 0 && g_app_frees == 0))'),
+        ('source_freed_only_on_request', '__CPROVER_ensures(g_app_frees == (((uintptr_t)$ret.data != 0 && $3) ? 1 : 0))'),
+        ('frame', '__CPROVER_assigns(g_sbx_mallocs, g_sbx_malloc_count, g_rl_memcpys, g_cp_d, g_cp_s, g_cp_n, g_app_frees, *$4)'),
+    ]
+    h = SB_HARNESS + ('  uintptr_t in_s; unsigned long in_num; _Bool in_free; _Bool copied; _Bool in_mfail; unsigned long in_mret; __CPROVER_assume(in_mret != 0);\n'
+                      '  g_exp_s = in_s; g_exp_n = in_num; g_exp_esz = %d; g_sbx_mallocs = 0; g_rl_memcpys = 0; g_app_frees = 0; g_malloc_fails = in_mfail; g_sbx_malloc_ret = in_mret;\n'
+                      '  struct %s r = $ROOT(&sb, (%s *)in_s, in_num, in_free, &copied);\n' % (esz, TT, cel))
+    return Inst('c10_copy_memory_or_grant_access_%s' % tid(el), 'rlbox_sandbox<vsbx>& s, %s* src, size_t num, bool fr, bool& copied' % el,
+                'copy_memory_or_grant_access(s, src, num, fr, copied);', cl, h, leaves=['dynamic_check', malloc_leaf, memcpy_leaf], prop=PROP,
+                root_name='copy_memory_or_grant_access', tier=tier, pre=GRANT_SPEC, extra_replace=['vstd_free'])
+
+
 def units(tier):
     insts = [check_range_inst(tier), memset_inst('plain', tier), memset_inst('tainted', tier), memcpy_inst('raw', tier),
              memcpy_inst('tainted', tier), memcmp_inst(tier)]
     for pt in (['int', 'char', 'long'] if tier == 'quick' else ['int', 'char', 'long', 'short', 'double', 'long long', 'unsigned char']):
         insts.append(unverified_ptr_inst(pt, tier))
-    return [Unit('C10_bulk', insts)]
+    for pt in (['char', 'long'] if tier == 'quick' else ['int', 'char', 'long', 'short', 'double']):
+        insts.append(buffer_address_inst(pt, tier))
+    insts += [deny_access_inst('char', 1, tier), deny_access_inst('char16_t', 2, tier), grant_access_inst('char', 1, tier), grant_access_inst('char16_t', 2, tier)]
+    return [Unit('C10_bulk', insts, extra_cpp=EXTRA_CPP)]
 
 
 ASSUMPTIONS = [
@@ -210,5 +331,5 @@ ASSUMPTIONS = [
 TRUSTED = ['numeric memory view: addresses are integers; "touches only those bytes" is the call-site precondition of the libc stub']
 MANIFEST = {
     'level_text': 'For each bulk operation the instantiated body is proved, for all start addresses, extents up to 2^64 and every well-formed two-region address space, to either abort or call the libc routine exactly once with exactly the given ranges, each sandbox-side range lying wholly inside one region and each application-side range wholly outside the sandbox (call-site preconditions of the libc stubs), and not to abort for a non-empty valid request. The range checker is verified against its own contract and callers only see that contract. Loop-free: complete.',
-    'level_note': 'Numeric view: libc routines are contract stubs. copy_and_verify_range/string and copy_memory_or_grant/deny_access are decided under C09. Known findings: element-count products that wrap (unverified_safe_pointer_because).',
+    'level_note': 'Numeric view: libc routines are contract stubs. copy_and_verify_range/string are decided under C09 (object view). copy_memory_or_grant_access is proved over the contracts of malloc_in_sandbox and rlbox::memcpy; copy_memory_or_deny_access over malloc/memcpy/free stubs for a backend that cannot revoke access (copy path).',
 }
